@@ -185,6 +185,33 @@ func C13(c *fw.Ctx) {
 			}
 		}
 	}
+	// A4: a fault that names something missing, with several equally similar names around it (variables
+	// of one scope, properties of one object, parameters): whatever the diagnostic says, it says the same
+	// every time
+	{
+		V, P, F := model.KwVar, model.KwPrint, model.KwFun
+		decl := V + " total1 = 1; " + V + " total2 = 2; " + V + " total3 = 3; " + V + " total4 = 4;\n"
+		obj := V + " o = {count1: 1, count2: 2, count3: 3, count4: 4};\n"
+		faults := []string{
+			P + " total5;\n", "total5 = 1;\n", "total5();\n", P + " total;\n", P + " totl1;\n",
+			P + " o.count5;\n", "o.count5.x = 1;\n", model.BiDelete + "(o, \"count5\");\n", P + " o.count;\n", P + " o.cuont1;\n",
+			F + " f(arg1, arg2, arg3, arg4) { " + P + " arg5; }\nf(1, 2, 3, 4);\n",
+			"{ " + V + " inner1 = 1; " + V + " inner2 = 2; { " + P + " inner3; } }\n",
+			P + " " + model.BiLen + "1([1]);\n", P + " " + model.BiMax + "x(1, 2);\n",
+		}
+		for _, f := range faults {
+			for layout := 0; layout < 2; layout++ {
+				if !c.Mine() {
+					continue
+				}
+				src := decl + obj + P + " \"before\";\n" + f + P + " \"after\";\n"
+				if layout == 1 {
+					src = F + " wrap() {\n" + decl + obj + f + "}\nwrap();\n"
+				}
+				oneOutcome(c, src, "", "similar-names-around-a-fault")
+			}
+		}
+	}
 	// B: objects built by writes in every order, then deletes
 	for n := 1; n <= 4; n++ {
 		for _, perm := range permutations(n) {
